@@ -30,6 +30,9 @@ type C02Case struct {
 	// LimitReject: small body limits with the Reject action while the engine is On (or is switched by ctl): a body
 	// write reaching the limit is itself a disruptive event (413 / 500, rule id 0)
 	LimitReject bool `json:"limit_reject,omitempty"`
+	// Warmup: the same script has just been run (and closed) on the same WAF: the transaction under test runs on
+	// a recycled object and must start from the configured engine mode
+	Warmup bool `json:"warmup,omitempty"`
 }
 
 func canonicalScript(r *Req) []Call {
@@ -189,6 +192,7 @@ func genC02(t *rapid.T) *C02Case {
 		}
 	}
 	c.Script = script
+	c.Warmup = rapid.IntRange(0, 2).Draw(t, "warmup") == 0
 	return c
 }
 
@@ -326,6 +330,13 @@ func checkC02(c *C02Case) Result {
 		return res
 	}
 	defer closeWAF(w)
+	if c.Warmup {
+		if _, _, _, f := execScript(w, &c.Req, c.Script); f != nil {
+			res.Fail = f
+			return res
+		}
+		res.Labels = append(res.Labels, "after-another-transaction")
+	}
 	obs, fired, final, f := execScript(w, &c.Req, c.Script)
 	if f != nil {
 		res.Fail = f
